@@ -26,7 +26,12 @@ import (
 func init() { commands["tree"] = treeMain }
 
 var treeKeys = []string{"a", "b", "c", "d"}
-var treeFilters = []string{"null", "all", "lx1", "lx0", "fnx0", "nlx1", "nsa", "anx0", "anx1", "nsp1", "nsp2", "sel0", "selall"}
+
+// filters of the same construction that differ in one value
+var filterSibling = map[string]string{"lx1": "lx0", "lx0": "lx1", "nsp1": "nsp2", "nsp2": "nsp1", "nnpa": "nnpb", "nnpb": "nnpa", "anx0": "anx1", "anx1": "anx0",
+	"nsa": "nnpa", "sel0": "selall", "selall": "sel0", "null": "all", "all": "null"}
+
+var treeFilters = []string{"null", "all", "lx1", "lx0", "fnx0", "nlx1", "nsa", "anx0", "anx1", "nsp1", "nsp2", "nnpa", "nnpb", "sel0", "selall"}
 
 type tnode struct {
 	id      int
@@ -221,6 +226,15 @@ func (h *monHandler) cb(kind string, objs string) {
 	}
 	if h.block != nil {
 		<-h.block
+	}
+	if h.n.mode == "pausing" {
+		// a handler that is held up by the driver for a while and then catches up on a full buffer
+		h.n.gateMu.Lock()
+		g := h.n.gate
+		h.n.gateMu.Unlock()
+		if g != nil {
+			<-g
+		}
 	}
 	h.ncb++
 	if h.selfAt > 0 && h.ncb == h.selfAt {
@@ -481,7 +495,7 @@ func runTreeScenario(w *ndWriter, seed int64, variant string, nEvents int, idx i
 			s.addNode(fc, "sub", []string{"pausing", "stalled", "healthy"}[rng.Intn(3)], "null")
 			s.addNode(fc, "fsub", "pausing", "null")
 		}
-		s.addNode(root, "mon", []string{"stalled", "slow"}[rng.Intn(2)], "null")
+		s.addNode(root, "mon", []string{"stalled", "slow", "pausing", "pausing"}[rng.Intn(4)], "null")
 	}
 	// some nodes before the controller is ready
 	for i := 0; i < rng.Intn(4); i++ {
@@ -746,6 +760,10 @@ func (s *treeScn) randomRefilter(rng *rand.Rand, pct int) {
 	}
 	n := c[rng.Intn(len(c))]
 	fname := treeFilters[rng.Intn(len(treeFilters))]
+	if sib, ok := filterSibling[n.fname]; ok && rng.Intn(3) == 0 {
+		// a filter of the same shape that differs in one detail: the most likely one to be mistaken for "unchanged"
+		fname = sib
+	}
 	st := n.stage
 	s.tr.LogRaw("drv", "call.refilter", fmt.Sprintf(`"node":%d,"stage":%q,"filter":%q`, n.id, st, fname))
 	var err error
